@@ -19,6 +19,7 @@ func init() {
 	vrt.Register("C17_block_helper", BlockHelper)
 	vrt.Register("C17_block_left_early", BlockLeftEarly)
 	vrt.Register("C17_go_context_in_scopes", GoContextInScopes)
+	vrt.Register("C17_stored_block_same_everywhere", StoredBlockSameEverywhere)
 	vrt.Register("C17_nested_partials", NestedPartials)
 	vrt.Register("C17_shared_data_map", SharedDataMap)
 	vrt.Register("C17_content_of_in_scopes", ContentOfInScopes)
@@ -441,5 +442,39 @@ func GoContextInScopes() {
 	want, werr := plush.Render("<%= who() %>", mk())
 	vrt.Assert(werr == nil && err == nil, "the helper renders in every scope")
 	vrt.Assert(got == want, "a helper called in a nested scope sees the Go context the caller's scope carries")
+	vrt.Cover("done")
+}
+
+// ---- "every later contentOf(name) emits what the stored block renders": the same
+// text wherever the call stands (top level, a loop body, an if block, the body of
+// a template function), also for blocks that hold loops, returns and exits
+func StoredBlockSameEverywhere() {
+	e := mkEnv()
+	ctx := e.ctx(true, nil)
+	blocks := []string{
+		"<%= for (x) in xs { %><% return x %><% } %>!",
+		"<%= for (x) in xs { %><%= x %><% if (x == \"1\") { break } %><% } %>!",
+		"<%= v %><%= if (true) { %>t<% } %>",
+		"<% let f = fn() { for (x) in xs { return x } return 9 } %><%= f() %>!",
+	}
+	b := blocks[vrt.Choice(len(blocks))]
+	def := "<% contentFor(\"c\") { %>" + b + "<% } %>"
+	top, err := plush.Render(def+"[<%= contentOf(\"c\") %>]", e.ctx(true, nil))
+	vrt.Assert(err == nil, "the stored block renders at the top level")
+	var in string
+	switch vrt.Choice(4) {
+	case 0:
+		in = def + "<% let g = fn() { return contentOf(\"c\") } %>[<%= g() %>]"
+	case 1:
+		in = def + "<%= for (i) in [1] { %>[<%= contentOf(\"c\") %>]<% } %>"
+	case 2:
+		in = def + "<%= if (true) { %>[<%= contentOf(\"c\") %>]<% } %>"
+	default:
+		in = def + "<% let g = fn() { for (i) in [1] { return contentOf(\"c\") } return 0 } %>[<%= g() %>]"
+	}
+	vrt.Note("input", in)
+	got, err := plush.Render(in, ctx)
+	vrt.Assert(err == nil, "the stored block renders wherever contentOf stands")
+	vrt.Assert(got == top, "contentOf emits what the stored block renders, the same text wherever the call stands")
 	vrt.Cover("done")
 }
